@@ -111,7 +111,7 @@ def havoc_mut_args(eng, st, name, args, call):
       "core::slice::iter::<impl std::iter::IntoIterator for &[T]>::into_iter",
       "std::iter::IntoIterator::into_iter", "std::vec::Vec::iter", "core::slice::<impl [T]>::iter_mut",
       "std::string::String::from", "<std::string::String as std::convert::From>::from",
-      "std::vec::Vec::as_slice", "core::str::<impl str>::to_string", "std::string::String::into_bytes",
+      "std::vec::Vec::as_slice", "std::vec::Vec::as_mut_slice", "core::str::<impl str>::to_string", "std::string::String::into_bytes",
       "core::str::<impl str>::as_bytes", "std::string::String::as_bytes")
 def p_identity(eng, st, name, args, site, depth, call):
     a = args[0]
@@ -120,7 +120,7 @@ def p_identity(eng, st, name, args, site, depth, call):
         if impl is not None and depth < eng.max_depth and impl.path not in st.stack:
             return eng.run_body(st, impl, [eng.val(st, a)], depth + 1, site)
     if name in ("std::option::Option::as_ref", "std::option::Option::as_mut", "std::result::Result::as_ref",
-                "std::option::Option::as_deref") or "deref_mut" in name or name.endswith("iter_mut"):
+                "std::option::Option::as_deref") or "deref_mut" in name or name.endswith(("iter_mut", "as_mut_slice")):
         return one(st, a)      # keep the reference so that writes through it land on the place
     return one(st, eng.val(st, a))
 
@@ -508,8 +508,14 @@ def _item(eng, st, a):
     return v
 
 
+CURRENT_ENGINE = None       # set by Engine.__init__: where fail-closed notes of the primitive table go
+
+
 def _eff(st, kind, **kw):
     e = Effect(kind, loops=st.loopstack, stack=st.stack, **kw)
+    if kind == "write" and isinstance(e.item, tuple) and e.item and e.item[0] == "submap" and CURRENT_ENGINE is not None:
+        # writing a snapshot container's history map directly rewrites the past: no rule attributes that to the container
+        CURRENT_ENGINE.blind.add(("write through %s" % e.item[2], "@" + (e.site[2] if e.site and len(e.site) > 2 else "?")))
     if kind in ("write", "read"):
         e.ver = st.wver.get(e.item, 0)
     if kind == "write" and e.old is None and e.op in ("save", "remove"):
@@ -821,6 +827,10 @@ _SP_PURE = re.compile(r"^cw_storage_plus::(Bound|PrefixBound|Bounder|RawBound|En
 
 @prim_re(r"^(<)?cw_storage_plus::")
 def p_sp_other(eng, st, name, args, site, depth, call):
+    if name.endswith("SnapshotMap::changelog") and args:
+        # the history map of a snapshot container, as a handle: reading it (a history query) is attributed to that sub-map;
+        # writing it fails closed in _eff
+        return one(st, ("submap", _item(eng, st, args[0]), "SnapshotMap::changelog"))
     if _SP_PURE.search(name.lstrip("<")) or name.endswith(("::new", "::new_dyn")) or "PrimaryKey" in name or "KeyDeserialize" in name \
             or "Bound" in name or "Prefixer" in name:
         return opaque_call(eng, st, name, args, site, call)
